@@ -123,6 +123,42 @@ theorem Seg.ringPairsOf_nodup (R : Int) (s : Seg) (off a : Int) : (s.ringPairsOf
 
 
 
+/-- `WFp` as propositions -/
+theorem Geom.WFp_spec (g : Geom) (h : g.WFp = true) :
+    (∀ s ∈ g.segs, s.minRD ≤ s.maxRD) ∧
+    (∀ (i j : Nat) (hi : i < g.segs.length) (hj : j < g.segs.length), i ≠ j →
+      g.segs[i].maxRD < g.segs[j].minRD ∨ g.segs[j].maxRD < g.segs[i].minRD) ∧
+    (∀ s ∈ g.segs, ∃ off, s.axOff g.R = some off ∧ s.Exact off) ∧
+    (∀ first last, g.segs.head? = some first → g.segs.getLast? = some last →
+      ∀ s ∈ g.segs, first.minRD ≤ s.minRD ∧ s.maxRD ≤ last.maxRD) := by
+  unfold Geom.WFp at h
+  simp only [Bool.and_eq_true] at h
+  obtain ⟨⟨⟨hA, hB⟩, hC⟩, hD⟩ := h
+  refine ⟨?_, ?_, ?_, ?_⟩
+  · intro s hs
+    have := List.all_eq_true.mp hA s hs
+    simpa using this
+  · intro i j hi hj hij
+    have := List.all_eq_true.mp (List.all_eq_true.mp hB i (List.mem_range.mpr hi)) j (List.mem_range.mpr hj)
+    rw [List.getElem?_eq_getElem hi, List.getElem?_eq_getElem hj] at this
+    simpa [hij] using this
+  · intro s hs
+    have hs' := List.all_eq_true.mp hC s hs
+    cases hoff : s.axOff g.R with
+    | none => rw [hoff] at hs'; exact absurd hs' (by simp)
+    | some off =>
+      rw [hoff] at hs'
+      refine ⟨off, rfl, ?_⟩
+      intro he
+      simp only [Bool.or_eq_true, bne_iff_ne, ne_eq, beq_iff_eq] at hs'
+      rcases hs' with hE | hE
+      · exact absurd he hE
+      · exact hE
+  · intro first last hf hl s hs
+    rw [hf, hl] at hD
+    have := List.all_eq_true.mp hD s hs
+    simpa using this
+
 /-- `WFb` as propositions -/
 theorem Geom.WFb_spec (g : Geom) (h : g.WFb = true) :
     (∀ s ∈ g.segs, s.minRD ≤ s.maxRD) ∧
@@ -170,6 +206,23 @@ theorem Geom.WFb_spec (g : Geom) (h : g.WFb = true) :
     have := List.all_eq_true.mp hD s hs
     simpa using this
 
+/-- the ring-pair part of the well-formedness is contained in `WFb` -/
+theorem Geom.WFp_of_WFb (g : Geom) (h : g.WFb = true) : g.WFp = true := by
+  unfold Geom.WFb at h
+  unfold Geom.WFp
+  simp only [Bool.and_eq_true] at h ⊢
+  obtain ⟨⟨⟨hA, hB⟩, hC⟩, hD⟩ := h
+  refine ⟨⟨⟨hA, hB⟩, ?_⟩, hD⟩
+  rw [List.all_eq_true] at hC ⊢
+  intro s hs
+  have := hC s hs
+  cases hoff : s.axOff g.R with
+  | none => rw [hoff] at this; exact absurd this (by simp)
+  | some off =>
+    rw [hoff] at this
+    simp only [Bool.and_eq_true] at this
+    exact this.1
+
 
 /-- `seg?` is indexing of `segs` shifted by `minSeg` -/
 theorem Geom.seg?_eq_some (g : Geom) (s : Int) (sg : Seg) :
@@ -188,9 +241,9 @@ theorem Geom.seg?_eq_some (g : Geom) (s : Int) (sg : Seg) :
     rw [this, List.getElem?_eq_getElem hk, he]
 
 /-- for a well-formed table `segOfRingDiff` finds the (unique) segment whose range contains `rd` -/
-theorem Geom.segOfRingDiff_eq_some (g : Geom) (h : g.WFb = true) (rd s : Int) :
+theorem Geom.segOfRingDiff_eq_some_p (g : Geom) (h : g.WFp = true) (rd s : Int) :
     g.segOfRingDiff rd = some s ↔ ∃ sg, g.seg? s = some sg ∧ sg.minRD ≤ rd ∧ rd ≤ sg.maxRD := by
-  obtain ⟨_, hdisj, _, hord⟩ := g.WFb_spec h
+  obtain ⟨_, hdisj, _, hord⟩ := g.WFp_spec h
   constructor
   · intro hs
     unfold Geom.segOfRingDiff at hs
@@ -228,24 +281,28 @@ theorem Geom.segOfRingDiff_eq_some (g : Geom) (h : g.WFb = true) (rd s : Int) :
       simp only [Bool.and_eq_true, decide_eq_true_eq, not_and]
       omega
 
-/-- **whole table**: for a well-formed geometry, a ring pair of the scanner is assigned to `(s, a)` iff it is
-    listed for `(s, a)`; in particular every ring pair with a covered ring difference lies in exactly one
-    `(segment, axial position)`, and that axial position is inside the segment's range. -/
-theorem Geom.ringpair_partition (g : Geom) (h : g.WFb = true) (r1 r2 : Int)
+theorem Geom.segOfRingDiff_eq_some (g : Geom) (h : g.WFb = true) (rd s : Int) :
+    g.segOfRingDiff rd = some s ↔ ∃ sg, g.seg? s = some sg ∧ sg.minRD ≤ rd ∧ rd ≤ sg.maxRD :=
+  g.segOfRingDiff_eq_some_p (g.WFp_of_WFb h) rd s
+
+/-- **whole table** (hypothesis `WFp`: also for a sampling whose axial ranges were shortened): a ring pair of the
+    scanner is assigned to `(s, a)` iff it is listed for `(s, a)`; in particular every ring pair with a covered ring
+    difference lies in exactly one `(segment, axial position)`. -/
+theorem Geom.ringpair_partition_p (g : Geom) (h : g.WFp = true) (r1 r2 : Int)
     (h1 : 0 ≤ r1 ∧ r1 < g.R) (h2 : 0 ≤ r2 ∧ r2 < g.R) (s a : Int) :
     g.segAxOfRingPair r1 r2 = some (s, a) ↔ (r1, r2) ∈ g.ringPairsOf s a := by
-  obtain ⟨hle, _, hax, _⟩ := g.WFb_spec h
+  obtain ⟨hle, _, hax, _⟩ := g.WFp_spec h
   unfold Geom.segAxOfRingPair Geom.ringPairsOf
   simp only [Option.bind_eq_bind, Option.pure_def, Option.bind_eq_some_iff, Option.some.injEq, Prod.mk.injEq]
   constructor
   · rintro ⟨s', hs', sg, hsg, off, hoff, rfl, rfl⟩
-    rw [g.segOfRingDiff_eq_some h] at hs'
+    rw [g.segOfRingDiff_eq_some_p h] at hs'
     obtain ⟨sg', hsg', hr1, hr2⟩ := hs'
     rw [hsg] at hsg'
     cases hsg'
     obtain ⟨k, hk, _, he⟩ := (g.seg?_eq_some _ _).mp hsg
     have hmem : sg ∈ g.segs := he ▸ List.getElem_mem hk
-    obtain ⟨off', hoff', hex, _⟩ := hax sg hmem
+    obtain ⟨off', hoff', hex⟩ := hax sg hmem
     rw [hoff] at hoff'
     cases hoff'
     simp only [hsg, hoff]
@@ -257,11 +314,19 @@ theorem Geom.ringpair_partition (g : Geom) (h : g.WFb = true) (r1 r2 : Int)
     | some sg =>
       obtain ⟨k, hk, _, he⟩ := (g.seg?_eq_some _ _).mp hsg
       have hmem : sg ∈ g.segs := he ▸ List.getElem_mem hk
-      obtain ⟨off, hoff, hex, _⟩ := hax sg hmem
+      obtain ⟨off, hoff, hex⟩ := hax sg hmem
       simp only [hsg, hoff] at hm
       rw [Seg.mem_ringPairsOf_iff _ sg off _ (hle sg hmem) hex] at hm
       obtain ⟨_, _, _, _, hr1, hr2, ha⟩ := hm
-      exact ⟨s, (g.segOfRingDiff_eq_some h _ _).mpr ⟨sg, hsg, hr1, hr2⟩, sg, hsg, off, hoff, rfl, ha⟩
+      exact ⟨s, (g.segOfRingDiff_eq_some_p h _ _).mpr ⟨sg, hsg, hr1, hr2⟩, sg, hsg, off, hoff, rfl, ha⟩
+
+/-- **whole table**: for a well-formed geometry, a ring pair of the scanner is assigned to `(s, a)` iff it is
+    listed for `(s, a)`; in particular every ring pair with a covered ring difference lies in exactly one
+    `(segment, axial position)`, and that axial position is inside the segment's range. -/
+theorem Geom.ringpair_partition (g : Geom) (h : g.WFb = true) (r1 r2 : Int)
+    (h1 : 0 ≤ r1 ∧ r1 < g.R) (h2 : 0 ≤ r2 ∧ r2 < g.R) (s a : Int) :
+    g.segAxOfRingPair r1 r2 = some (s, a) ↔ (r1, r2) ∈ g.ringPairsOf s a :=
+  g.ringpair_partition_p (g.WFp_of_WFb h) r1 r2 h1 h2 s a
 
 /-- covered ring difference ⇒ assigned, with the axial position in range -/
 theorem Geom.covered_assigned (g : Geom) (h : g.WFb = true) (r1 r2 : Int)
